@@ -55,6 +55,8 @@ class Cog6(ExactSolver):
 
     def _run(self, r, t):
 
+        if t >= self.tau:
+            raise ValueError("The time t must be less than tau")
         k = self.geometry - 1
         gamma = (k + 3.) / (k + 1.)
         bigGamma = self.Gamma
